@@ -22,20 +22,22 @@ def sh(cmd, cwd=None, timeout=1500, env=env):
 
 meta = json.load(open(os.path.join(out, "meta.json")))
 patch = os.path.join(out, "patch.diff")
-rc, _ = sh("git -C %s diff --quiet -- basic_robotics" % wt)
-if rc == 0:
-    print("worktree has no change applied; applying patch")
-    print(sh("git -C %s apply %s" % (wt, patch))[1])
+# the worktree is put into the state "HEAD + the recorded patch" whatever it was left in
+sh("git -C %s checkout -- basic_robotics" % wt)
+rc, o = sh("git -C %s apply %s" % (wt, patch))
+assert rc == 0, "patch does not apply to the worktree: " + o
 # 1. demo fails with the change
 rc_with, o1 = sh("/venv/bin/python _out/demo.py", cwd=wt, timeout=900)
 # 2. suite with the change
 t0 = time.time()
 rc_t, o2 = sh("/venv/bin/python -m pytest -q -p no:cacheprovider --timeout=900 --continue-on-collection-errors --deselect tests/test_interfaces_communications.py 2>&1 | tail -3", cwd=wt, timeout=4500)
 suite = o2.strip().splitlines()[-1] if o2.strip() else "?"
-# 3. demo passes without it
-sh("git -C %s stash -q -- basic_robotics" % wt)
+# 3. demo passes without it (the change is taken out and put back from its own patch file: `git stash` is shared by
+#    all worktrees of a repository and must not be used when several of these run side by side)
+sh("git -C %s checkout -- basic_robotics" % wt)
 rc_without, o3 = sh("/venv/bin/python _out/demo.py", cwd=wt, timeout=900)
-sh("git -C %s stash pop -q" % wt)
+rc_re, o_re = sh("git -C %s apply %s" % (wt, patch))
+assert rc_re == 0, "could not re-apply the change: " + o_re
 print("demo with change: rc=%d (%s) | without: rc=%d (%s)" % (rc_with, o1.strip().splitlines()[-1][:80] if o1.strip() else "", rc_without,
                                                                 o3.strip().splitlines()[-1][:80] if o3.strip() else ""))
 print("suite with change:", suite)
